@@ -22,5 +22,5 @@ OptIs(name, dflt) == IF name \in DOMAIN C.opts THEN C.opts[name] ELSE dflt
 (* the file set: a lexer always; parser files iff a parser is generated *)
 FileSet == st = "built" =>
    /\ HasFile("lexer.go") /\ HasFile("lexer_tables.go") /\ HasFile("token/token.go")
-   /\ (C.base # "lexeronly" /\ OptIs("genParser", TRUE)) => (HasFile("parser.go") /\ HasFile("parser_tables.go"))
+   /\ (C.base \notin {"lexeronly", "biglexer"} /\ OptIs("genParser", TRUE)) => (HasFile("parser.go") /\ HasFile("parser_tables.go"))
 =============================================================================
